@@ -101,11 +101,16 @@ pub const BAD_LOCATIONS: [&str; 7] = ["cat", "../cat/pkg", "/cat/pkg", "a/b/c", 
 
 // ------------------------------------------------------------------ generator
 
+fn scalar_char(c: char) -> bool {
+    c != '\n' && c != '\r'
+}
+
 fn scalar_value() -> BoxedStrategy<String> {
     prop_oneof![
         3 => prop::sample::select(vec!["", "yes", "no", "a=b", "x y z", "  padded  ", "100", "é", "= lead", "user-destdir", "reason: broken"]).prop_map(String::from),
         1 => "[ -~]{0,16}",
         1 => "[ a-cé=:\t]{0,8}",
+        1 => crate::engine::dict::string_token(scalar_char, "a"),
     ]
     .boxed()
 }
